@@ -153,6 +153,12 @@ def stateFromSnapshot (snapshot : Option (List Nat)) : Out (List Nat) :=
   | some ids => .ok ids
   | none => if settingsSnapshotNilSafe then .ok [] else .panic
 
+/-! ### snappy frame: buffer sized by the announced decoded length -/
+
+/-- `snappyEncoding.Unmarshal`: `.ok n` = bytes the buffer is grown to before decoding -/
+def snappyPrealloc (announced inputLen : Nat) : Out Nat :=
+  if snappyLenGuard && decide (announced > maxSnappyExpansion * inputLen) then .err else .ok announced
+
 /-! ### range arithmetic (uint64, wrapping) -/
 
 def u64 (n : Nat) : Nat := n % 2 ^ 64
